@@ -298,6 +298,13 @@ pub fn run(head: &str, steps: &str) -> Result<String, String> {
         links: Mutex::new(Vec::new()), v5, write_plan: Mutex::new(wplan), read_plan: Mutex::new(rplan),
         answer: get("answer").unwrap_or("1") != "0", refuse: Mutex::new(get("refuse").and_then(|x| x.parse().ok()).unwrap_or(0)),
     });
+    // durations in ms; `max` is the largest value the builders accept (Duration::MAX)
+    let dur = |key: &str, default: u64| -> Duration {
+        match get(key) {
+            Some("max") => Duration::MAX,
+            other => Duration::from_millis(other.and_then(|x| x.parse().ok()).unwrap_or(default)),
+        }
+    };
     let mut cb = MqttClientOptions::builder();
     cb.with_protocol_mode(if v5 { ProtocolMode::Mqtt5 } else { ProtocolMode::Mqtt311 })
         .with_offline_queue_policy(match get("policy").unwrap_or("all") {
@@ -306,10 +313,10 @@ pub fn run(head: &str, steps: &str) -> Result<String, String> {
             "qos1plus" => OfflineQueuePolicy::PreserveQos1PlusPublishes,
             _ => OfflineQueuePolicy::PreserveAll })
         .with_ping_timeout(Duration::from_millis(30000))
-        .with_connect_timeout(Duration::from_millis(get("ctimeout").and_then(|x| x.parse().ok()).unwrap_or(2000)))
+        .with_connect_timeout(dur("ctimeout", 2000))
         .with_reconnect_period_jitter(ExponentialBackoffJitterType::None)
-        .with_base_reconnect_period(Duration::from_millis(get("backoff").and_then(|x| x.parse().ok()).unwrap_or(20)))
-        .with_max_reconnect_period(Duration::from_millis(1000));
+        .with_base_reconnect_period(dur("backoff", 20))
+        .with_max_reconnect_period(dur("maxbackoff", 1000));
     let client_options = cb.build();
     // lifecycle events as the application sees them, interleaved with markers for the controller's own steps
     let events: Arc<Mutex<Vec<String>>> = Arc::new(Mutex::new(Vec::new()));
